@@ -19,6 +19,9 @@ def check(case):
     got = lib(lambda: FMCoreFeatures().execute(fm).get_result())
     if isinstance(got, Raised):
         return [(f"C14.raised:{got.label}", got.text)]
+    again = lib(lambda: (_bool.long_lived(FMCoreFeatures).execute(fm), _bool.long_lived(FMCoreFeatures).execute(fm).get_result())[1])
+    if isinstance(again, Raised) or [f.name for f in again] != [f.name for f in got]:
+        out.append(("C14.reused-object-differs", "a long-lived FMCoreFeatures object returns something else than a fresh one"))
     names = [getattr(f, "name", repr(f)) for f in got]
     if len(names) != len(set(names)):
         out.append(("C14.duplicates", repr(names)))
